@@ -806,6 +806,33 @@ func TestKnownOpenCornerGraze(t *testing.T) {
 	t.Fatalf("%v (replay %s)", err, path)
 }
 
+// TestKnownOpenNaNVertex runs the witness of finding open-bound-nan-vertex-on-edge-run (found by the
+// thorough sweep at VERIF_SEED=7; the whole case is testdata/known_open_nan_vertex.json).
+func TestKnownOpenNaNVertex(t *testing.T) {
+	stats.Eval("TestKnownOpenNaNVertex", 1)
+	box := orb.Bound{Min: orb.Point{-1001.4, -1002.1}, Max: orb.Point{-1000.7, -999.3}}
+	ls := orb.LineString{{-1001.4, -1002.1}, {-1000, -999.3}, {-1005.6, -1006.3000000000001}, {-999.3, -999.3}, {-1001.4, -1002.1},
+		{-1004.9000000000001, -995.0999999999999}, {-1009.1, -1002.0999999999999}, {-998.6, -1002.1}, {-998.6, -1002.1}, {-1000, -1001.4}, {-1002.8, -1004.2}}
+	got := clip.LineString(box, copyLine(ls), clip.OpenBound(true))
+	if !hasNaN(got) {
+		return
+	}
+	what := fmt.Sprintf("clip.LineString with OpenBound(true) on the 11-vertex witness line (box (-1001.4,-1002.1)-(-1000.7,-999.3)) returns a NaN coordinate: %v", got)
+	if _, ok := kf.Get("C07", knownNaNKey); ok {
+		if !nanFamily(box, ls) {
+			t.Fatalf("the witness is not in the family the exclusion uses")
+		}
+		stats.Known(knownNaNKey, what)
+		return
+	}
+	if sh, _ := stats.Shard(); sh != 0 {
+		return
+	}
+	err := fmt.Errorf("%s [not listed in known_findings.json]", what)
+	path := stats.RecordFailure("TestKnownOpenNaNVertex", mkCase(box, true, ls), err)
+	t.Fatalf("%v (replay %s)", err, path)
+}
+
 // ---------------------------------------------------------------- regression cases
 
 func mkCase(box orb.Bound, open bool, ls orb.LineString) Case {
@@ -910,6 +937,17 @@ func TestReplay(t *testing.T) {
 	_, raw, ok := stats.Replaying()
 	if !ok {
 		t.Skip("no replay file")
+	}
+	if name, _, _ := stats.Replaying(); name == "TestKnownOpenNaNVertex" {
+		var c Case
+		if err := json.Unmarshal(raw, &c); err != nil {
+			t.Fatal(err)
+		}
+		if err := stats.Guard(func() error { return checkCaseRaw(c) }); err != nil {
+			t.Fatalf("replayed case still fails: %v", err)
+		}
+		fmt.Println("replayed case passes")
+		return
 	}
 	if name, _, _ := stats.Replaying(); name == "TestEnumLarge" {
 		var c LargeCase
